@@ -636,7 +636,7 @@ def extra_C18(rng, tier, st, cov):
     finally:
         shutil.rmtree(work, ignore_errors=True)
     cov.setdefault('extra', {})['c18'] = {k: (v if not isinstance(v, list) else {'min': min(v) if v else 0, 'max': max(v) if v else 0, 'n': len(v)}) for k, v in stats.items()}
-    return out
+    return out + _concurrent_runs(rng, tier, st, cov)
 
 
 # ---- standard engines (C++-only differential): C03, C05, C10 ----------------------------------------
@@ -732,11 +732,49 @@ def _locale_extra(pid):
         return out
     return f
 
+def _concurrent_runs(rng, tier, st, cov):
+    """C++ only: the same case run alone and then by four threads at once, every thread with its own objects and its own checkpoint
+    file; through the ordinary build (observations must be those of the run alone) and through a ThreadSanitizer build (state the
+    library shares between the runs behind the user's back is a data race)"""
+    import tie, props
+    out = []; n = 0
+    try:
+        ts = tie.cxx_build('-g -fsanitize=thread', 'tsan')
+    except tie.Stage as e:
+        ts = None
+    env_ts = dict(os.environ); env_ts['TSAN_OPTIONS'] = 'halt_on_error=1 exitcode=66'
+    for t in ('d', 'f', 'l'):
+        fmt = FMTS[t]
+        for kind in ('mc', 'vegas', 'plain'):
+            for _ in range(1 if tier == 'quick' else 4):
+                s, cl, info = props.rand_run(rng, fmt, kind, iters=rng.choice([3, 5]), calls=[20, 60], cb=['builtin', 3, fmt.rtok(0)], poly=True, finite_only=True)
+                s = [e for e in s if e[0] not in ('cbref', 'reuse', 'nest', 'coutfmt', 'keepfile')]
+                s.insert(len(s) - 1, ['threads', 4])
+                line = dump([1, t, 'concurrent', s, []])
+                for exe, env, what in ((st['cxx_exe'], None, None), (ts, env_ts, 'ThreadSanitizer build')):
+                    if exe is None: continue
+                    try:
+                        p = subprocess.run([exe], input=line + '\n', stdout=subprocess.PIPE, stderr=subprocess.PIPE, universal_newlines=True, timeout=300, env=env)
+                    except subprocess.TimeoutExpired:
+                        out.append(viol('four %s integrations at once in different threads did not finish' % kind, [], {'spec': line})); continue
+                    n += 1
+                    ol = [l for l in p.stdout.split('\n') if l.startswith('(')]
+                    o = parse(ol[0]) if ol else None
+                    if p.returncode != 0 or not o or not isinstance(o[1], list) or o[1][:1] != ['concurrent']:
+                        out.append(viol('four %s integrations at once in different threads of one process (verbose callback writing checkpoints): %s' % (
+                            kind, ('the %s reports: %s' % (what, p.stderr[-300:])) if what else ('the process ended with status %s %s' % (p.returncode, (dump(o[1])[:200] if o else p.stderr[-200:])))), [], {'spec': line}))
+                    elif o[1][2] != 0:
+                        out.append(viol('four %s integrations at once in different threads of one process: %d of them observed something else than the same run alone (callback answers, files written, final checkpoint)%s' % (
+                            kind, o[1][2], ' - ' + o[1][3].decode(errors='replace')[:100] if len(o[1]) > 3 and isinstance(o[1][3], bytes) else ''), [], {'spec': line}))
+    cov.setdefault('extra', {})['concurrent_runs'] = {'runs': n, 'threads': 4}
+    return out
+
 def extra_C03(rng, tier, st, cov):
     return _engine_extra('C03')(rng, tier, st, cov) + _locale_extra('C03')(rng, tier, st, cov)
 def extra_C05(rng, tier, st, cov):
     return _engine_extra('C05')(rng, tier, st, cov) + _locale_extra('C05')(rng, tier, st, cov)
-extra_C20 = _locale_extra('C20')
+def extra_C20(rng, tier, st, cov):
+    return _locale_extra('C20')(rng, tier, st, cov) + _concurrent_runs(rng, tier, st, cov)
 def _iteration_api(rng, tier, st, cov):
     """C++ only: plain_iteration / vegas_iteration / multi_channel_iteration called directly with the caller's generator: while call k is
     evaluated, and after an exception thrown in call k, the generator has advanced by exactly (k+1) x d (d+1) canonical numbers"""
